@@ -1,7 +1,9 @@
 package props
 
 import (
+	"fmt"
 	"math"
+	"runtime"
 
 	"github.com/sahandsafizadeh/qeep/tensor"
 
@@ -228,6 +230,16 @@ func runC05(c *fw.Ctx) {
 	for i := 0; i < c.Pick(1500, 30000); i++ {
 		c.Case(func(k *fw.K) { c05KeptResults(k) })
 	}
+	// ---- large whole numbers (multiples of 2^50 below 2^53, 1 100..2 500 of them: the total passes 2^63 and every partial sum is exact) and
+	// alternating giants (+a, -a, +a, -a ... with a = 1e308 next to ordinary rows: every prefix and every contiguous block is finite) ----
+	for i := 0; i < c.Pick(24, 240); i++ {
+		i := i
+		c.Case(func(k *fw.K) { c05WholeNumbers(k, i) })
+	}
+	// ---- short-lived operands: each tensor is reduced once and dropped, a garbage collection runs, the next tensor takes its place ----
+	for i := 0; i < c.Pick(60, 600); i++ {
+		c.Case(func(k *fw.K) { c05ShortLived(k) })
+	}
 	// ---- reducers on tensors with a history (built by Full/Zeros/Ones and earlier operations of a chain) ----
 	for i := 0; i < c.Pick(3000, 40000); i++ {
 		c.Case(func(k *fw.K) {
@@ -377,4 +389,188 @@ func c05Along1(k *fw.K, in ref.Instr, kind ref.Stat, x *ref.T) {
 			return
 		}
 	}
+}
+
+// c05ShortLived: an evaluation loop. Each step builds a fresh tensor of the same shape with its own values (a plain TensorOf,
+// so that nothing else keeps it alive), takes ONE statistic of it and drops it; a garbage collection runs after every step, so
+// the next tensor is likely to occupy the memory of the previous one. A statistic is a function of the elements of its operand.
+func c05ShortLived(k *fw.K) {
+	r := k.Rng
+	shape := [][]int{{4}, {3, 3}, {16}, {2, 5}, {64}, {2, 2, 2}}[r.Intn(6)]
+	steps := 12 + r.Intn(20)
+	kinds := []ref.Stat{ref.SMean, ref.SVar, ref.SStd, ref.SAvg, ref.SSum, ref.SMax, ref.SMin}
+	names := []string{"Mean", "Var", "Std", "Avg", "Sum", "Max", "Min"}
+	along := r.Intn(2) == 0
+	k.Case = map[string]any{"family": "short-lived operands with garbage collections in between", "shape": shape, "steps": steps, "along": along}
+	k.Key("short-lived/%s/%v", shapeKey(shape), along)
+	k.Count("short_lived_operand_cases", 1)
+	for step := 0; step < steps; step++ {
+		x := RandT(r, shape, -3, 3)
+		off := float64(r.Intn(7)-3) * 10 // the mean moves from step to step
+		for i := range x.Data {
+			x.Data[i] += off
+		}
+		qi := r.Intn(3) // mostly the mean-based statistics
+		if r.Intn(4) == 0 {
+			qi = r.Intn(len(kinds))
+		}
+		var msg string
+		if pn := call(func() {
+			t, derr := rt.Direct(x, false)
+			if derr != nil {
+				msg = "harness: " + derr.Error()
+				return
+			}
+			if along && len(shape) > 0 {
+				in := ref.Instr{Op: c05Along[r.Intn(len(c05Along))], Dim: r.Intn(len(shape))}
+				want, err := ref.Apply(in, []*ref.T{x})
+				if err != nil {
+					msg = "harness: " + err.Error()
+					return
+				}
+				got, err := rt.Exec(in, []tensor.Tensor{t})
+				if err != nil {
+					msg = fmt.Sprintf("step %d: %s(%d): %v", step, in.Op, in.Dim, err)
+					return
+				}
+				if e := rt.Compare(got, want, 1e-9*(1+maxAbs(want)), 1e-9, nil, 0); e != nil {
+					msg = fmt.Sprintf("step %d of an evaluation loop over short-lived tensors of shape %v: %s(%d): %v", step, shape, in.Op, in.Dim, e)
+				}
+				return
+			}
+			var got float64
+			switch qi {
+			case 0:
+				got = t.Mean()
+			case 1:
+				got = t.Var()
+			case 2:
+				got = t.Std()
+			case 3:
+				got = t.Avg()
+			case 4:
+				got = t.Sum()
+			case 5:
+				got = t.Max()
+			default:
+				got = t.Min()
+			}
+			want := x.Reduce(kinds[qi])
+			if !ref.Close(got, want, 1e-9*(1+math.Abs(want)+100), 1e-9) {
+				msg = fmt.Sprintf("step %d of an evaluation loop over short-lived tensors of shape %v: %s() = %v, the elements give %v", step, shape, names[qi], got, want)
+			}
+		}); pn != nil {
+			k.Failf("step %d: panic: %v", step, pn)
+			return
+		}
+		if msg != "" {
+			k.Failf("%s", msg)
+			return
+		}
+		runtime.GC()
+		k.Count("garbage_collections_between_reductions", 1)
+	}
+}
+
+// c05WholeNumbers: see the call site. Sum / Avg / Mean and SumAlong / AvgAlong / MeanAlong are compared exactly for the whole
+// numbers (every partial sum in any order is a multiple of 2^50 below 2^65, hence exact) and for the alternating giants along
+// the storage order (the defined value of such a fibre is the sum of its ordinary elements: 0 here).
+func c05WholeNumbers(k *fw.K, i int) {
+	r := k.Rng
+	if i%2 == 0 {
+		shape := [][]int{{50, 50}, {2500}, {2, 1250}, {1250, 2}, {1100}, {40, 40}}[(i/2)%6]
+		x := ref.Zeros(shape)
+		for j := range x.Data {
+			x.Data[j] = math.Ldexp(float64(6+r.Intn(2)), 50) // 6 or 7 times 2^50: 1100 of them exceed 2^63
+		}
+		k.Case = map[string]any{"family": "large whole numbers", "shape": shape}
+		k.Key("whole-numbers/%s", shapeKey(shape))
+		k.Count("large_whole_number_cases", 1)
+		t := rt.MustLeaf(x, false)
+		var sum, avg, mean float64
+		if p := call(func() { sum, avg, mean = t.Sum(), t.Avg(), t.Mean() }); p != nil {
+			k.Failf("reducers on %d whole numbers of size 2^52: panic: %v", len(x.Data), p)
+			return
+		}
+		ws := x.Reduce(ref.SSum)
+		if sum != ws || !ref.Close(avg, ws/float64(len(x.Data)), 0, 1e-13) || !ref.Close(mean, ws/float64(len(x.Data)), 0, 1e-13) {
+			k.Failf("%d whole numbers (6 or 7 times 2^50 each) of shape %v: Sum() = %v, Avg() = %v, Mean() = %v; the elements add up to %v exactly (mean %v)", len(x.Data), shape, sum, avg, mean, ws, ws/float64(len(x.Data)))
+			return
+		}
+		for d := range shape {
+			in := ref.Instr{Op: "sumalong", Dim: d}
+			want, _ := ref.Apply(in, []*ref.T{x})
+			got, err, p := exec(in, []tensor.Tensor{t})
+			if p != nil || err != nil || got == nil {
+				k.Failf("SumAlong(%d) on shape %v: panic=%v err=%v", d, shape, p, err)
+				return
+			}
+			if e := rt.Compare(got, want, 0, 0, nil, 0); e != nil {
+				k.Failf("SumAlong(%d) over whole numbers of size 2^52 (shape %v, every partial sum exact): %v", d, shape, e)
+				return
+			}
+		}
+		return
+	}
+	rows, n := 2+r.Intn(3), 2*(2+r.Intn(4))
+	x := ref.Zeros([]int{rows, n})
+	a := []float64{1e308, 1.5e308, 9e307}[r.Intn(3)]
+	g := r.Intn(rows)
+	for j := 0; j < n; j++ {
+		x.Data[g*n+j] = a
+		if j%2 == 1 {
+			x.Data[g*n+j] = -a
+		}
+	}
+	for q := 0; q < rows; q++ {
+		if q != g {
+			for j := 0; j < n; j++ {
+				x.Data[q*n+j] = float64(1 + r.Intn(9))
+			}
+		}
+	}
+	k.Case = map[string]any{"family": "alternating giants", "shape": x.Shape, "giant": a, "row": g}
+	k.Key("alternating-giants/%d/%d", rows, n)
+	k.Count("alternating_giant_cases", 1)
+	t := rt.MustLeaf(x, false)
+	want := 0.
+	for q := 0; q < rows; q++ {
+		if q != g {
+			for j := 0; j < n; j++ {
+				want += x.Data[q*n+j]
+			}
+		}
+	}
+	if g != rows-1 { // the ordinary rows after the giants are added to a running total of exactly 0; before them they would be absorbed
+		want = 0
+		for q := g + 1; q < rows; q++ {
+			for j := 0; j < n; j++ {
+				want += x.Data[q*n+j]
+			}
+		}
+	}
+	var sum float64
+	if p := call(func() { sum = t.Sum() }); p != nil {
+		k.Failf("Sum: panic: %v", p)
+		return
+	}
+	if math.IsNaN(sum) || math.IsInf(sum, 0) {
+		k.Failf("Sum() of shape %v whose row %d alternates +%v, -%v (every prefix and every contiguous block of the storage order is finite) = %v", x.Shape, g, a, a, sum)
+		return
+	}
+	in := ref.Instr{Op: []string{"sumalong", "avgalong", "meanalong"}[r.Intn(3)], Dim: 1}
+	got, err, p := exec(in, []tensor.Tensor{t})
+	if p != nil || err != nil || got == nil {
+		k.Failf("%s(1): panic=%v err=%v", in.Op, p, err)
+		return
+	}
+	gv, err := rt.Read(got)
+	if err != nil || len(gv.Data) != rows {
+		k.Failf("%s(1): result unreadable: %v", in.Op, err)
+		return
+	}
+	if gv.Data[g] != 0 {
+		k.Failf("%s(1) of the fibre +%v, -%v, ... (%d elements, every prefix finite, total exactly 0) = %v", in.Op, a, a, n, gv.Data[g])
+	}
+	_ = want
 }
